@@ -496,6 +496,19 @@ def readPacket (version : Nat) (bs : Bytes) : DecOut :=
     | .error e => { res := .error e, rest := vbiErrRest s1 0 0 }
     | .ok (n, s2) => newPacket (first / 16) (first % 16) n version s2
 
+/-- ghost cost: the number of bytes `Unpack` allocates for the body (`make([]byte, RemainLength)`) before it has read a
+    single body byte — the declared Remaining Length whenever the plan is to read a window (F24) -/
+def allocBytes (version : Nat) (bs : Bytes) : Nat :=
+  match bs with
+  | [] => 0
+  | first :: s1 =>
+    match decVbi s1 with
+    | .error _ => 0
+    | .ok (n, _) =>
+      match planOf (first / 16) (first % 16) n version with
+      | .window _ _ => n
+      | _ => 0
+
 /-- reader version after a successful `ReadPacket` -/
 def versionAfter (version : Nat) : Except Err Packet → Nat
   | .ok (.connect c) => c.version
